@@ -312,6 +312,16 @@ def model(ctx):
     ctx.tlc(r, "what-if: leftover not truncated")
     if r.ok or r.invariant_violated != "FinalLength":
         raise tlc.TLCError("vacuity: the what-if variant 'notrunc' must violate FinalLength")
+    # unbounded: the batch loop (every row once, in order, ns rows at the end) and the hand-over between two workers (no batch is
+    # skipped) as inductive invariants for ALL lengths, batch sizes and tapers (Apalache)
+    from vkit import apalache
+    ob = [("Init", "IndInv", 0), ("IndInit", "IndInvAndSafety", 1)]
+    done = [apalache.check("apalache/DestripeLoopInd.tla", i, v, n) for i, v, n in ob]
+    if not all(done):
+        raise tlc.TLCError(f"inductive invariant of spec/apalache/DestripeLoopInd.tla not established: {done}")
+    ctx.cov["inductive_invariant"] = {"tool": "apalache-mc 0.58", "obligations": len(ob), "discharged": sum(done),
+                                      "statement": "Init => IndInv; IndInv /\\ Next => IndInv' /\\ Canonical /\\ NoDoubleWrite /\\ Handover "
+                                                   "for unbounded ns, NBATCH, taper (worker arithmetic with ns div nproc: bounded boxes only)"}
     runs = [("mc/DestripeFile_quick.cfg", 8)] if ctx.quick else \
            [("mc/DestripeFile_thorough.cfg", 16), ("mc/DestripeFile_mid.cfg", 16), ("mc/DestripeFile_wide.cfg", 16)]
     for cfg, wk in runs:
